@@ -6,6 +6,7 @@ import (
 	"encoding/hex"
 	"encoding/json"
 	"fmt"
+	"golang.org/x/tools/go/packages"
 	"os"
 	"path/filepath"
 	"sort"
@@ -180,6 +181,15 @@ func splitQuoted(s string) []string {
 }
 
 // ---- finishing: reports, evidence, exit code ----
+
+// DropProgram releases the loaded program (some gigabytes) once the rules have run; only
+// the counts that the evidence reports are kept.
+func (r *Run) DropProgram() {
+	if r.P == nil {
+		return
+	}
+	r.P = &Prog{Dir: r.P.Dir, Pkgs: make([]*packages.Package, len(r.P.Pkgs)), FuncList: make([]*Fn, len(r.P.FuncList))}
+}
 
 func VerifDir() string {
 	if d := os.Getenv("VERIF_DIR"); d != "" {
